@@ -174,7 +174,11 @@ class Ctx:
                 if (idx + seed) % recheck_every == 0:
                     # determinism self-check: identical observation on re-execution
                     r2 = Recorder()
-                    obs2 = run_case(case, r2)
+                    try:
+                        obs2 = run_case(case, r2)
+                    except HarnessError as e:
+                        rec.nondet.append('case %s (re-execution): %s' % (jdump(case)[:300], e))
+                        continue
                     rec.rechecked += 1
                     if repr(obs) != repr(obs2):
                         # not fatal at once: a genuine violation found elsewhere is still reported (exit 1);
